@@ -204,176 +204,13 @@ Proof. repeat split; reflexivity. Qed.
 Lemma v6loop_facts : is_unspecified v6loop = false /\ is_loopback v6loop = true /\ is_private v6loop = false.
 Proof. repeat split; reflexivity. Qed.
 
-(* the host of a name / empty host is one of the two loopback constants *)
-Lemma host_ip_name fq ip : host_ip (mkAddr [] fq) = Some ip -> ip = v4loop16 \/ ip = v6loop.
-Proof.
-  unfold host_ip. cbn [a_ip a_fqdn]. cbv zeta.
-  destruct (ascii_lower fq) as [|c d]; [intro H; injection H as <-; auto|].
-  destruct (mem_bytes (c :: d) names4); [intro H; injection H as <-; auto|].
-  destruct (mem_bytes (c :: d) names6); [intro H; injection H as <-; auto|discriminate].
-Qed.
 
-Lemma eff_of_const cmd ip : ip = v4loop16 \/ ip = v6loop ->
-  (if is_unspecified ip && (cmd =? CMD_CONNECT) then Some v4loop16 else Some ip) = Some ip.
-Proof.
-  intros [-> | ->].
-  - replace (is_unspecified v4loop16) with false by (vm_compute; reflexivity). reflexivity.
-  - replace (is_unspecified v6loop) with false by (vm_compute; reflexivity). reflexivity.
-Qed.
-
-Lemma host_ip_ip b t fq : host_ip (mkAddr (b :: t) fq) = Some (b :: t).
-Proof. reflexivity. Qed.
-
-(* soundness for the loopback class *)
-Lemma host_ip_empty : host_ip (mkAddr [] []) = Some v4loop16.
-Proof. vm_compute. reflexivity. Qed.
-
-Lemma host_ip_local fq : LocalName fq ->
-  exists ip, host_ip (mkAddr [] fq) = Some ip /\ (ip = v4loop16 \/ ip = v6loop).
-Proof.
-  unfold LocalName, host_ip. cbn [a_ip a_fqdn]. cbv zeta. intro HN.
-  destruct (ascii_lower fq) as [|c d]; [eauto|].
-  apply in_app_or in HN. destruct (mem_bytes (c :: d) names4) eqn:E4; [eauto|].
-  destruct HN as [HN | HN]; apply mem_bytes_In in HN; [congruence|]. rewrite HN. eauto.
-Qed.
-
-Lemma eff_const_loop cmd a ip : host_ip a = Some ip -> (ip = v4loop16 \/ ip = v6loop) ->
-  exists ip', effective_ip cmd a = Some ip' /\ is_loopback ip' = true.
-Proof.
-  intros Hh Hc. exists ip. unfold effective_ip. rewrite Hh, (eff_of_const cmd ip Hc).
-  split; [reflexivity|]. destruct Hc as [-> | ->]; [apply v4loop16_facts | apply v6loop_facts].
-Qed.
-
-Lemma eff_ip_loop cmd b t fq : is_loopback (b :: t) = true ->
-  exists ip', effective_ip cmd (mkAddr (b :: t) fq) = Some ip' /\ is_loopback ip' = true.
-Proof.
-  intro Hl. unfold effective_ip. rewrite host_ip_ip.
-  destruct (is_unspecified (b :: t) && (cmd =? CMD_CONNECT)).
-  - exists v4loop16. split; [reflexivity | apply v4loop16_facts].
-  - exists (b :: t). split; [reflexivity | exact Hl].
-Qed.
-
-Lemma eff_unspec_loop b t fq : is_unspecified (b :: t) = true ->
-  exists ip', effective_ip CMD_CONNECT (mkAddr (b :: t) fq) = Some ip' /\ is_loopback ip' = true.
-Proof.
-  intro Hu. unfold effective_ip. rewrite host_ip_ip, Hu, N.eqb_refl. cbn [andb].
-  exists v4loop16. split; [reflexivity | apply v4loop16_facts].
-Qed.
-
-Lemma eff_loop_sound cmd a : LoopDest cmd a ->
-  exists ip, effective_ip cmd a = Some ip /\ is_loopback ip = true.
-Proof.
-  destruct a as [ip fq]. unfold LoopDest. cbn [a_ip a_fqdn].
-  intros [[HL Hf] | [[Hi Hf] | [[Hi HN] | (HU & Hf & Hc)]]].
-  - pose proof (loop_sound ip HL) as Hl. destruct ip as [|b t]; [discriminate Hl|].
-    apply eff_ip_loop. exact Hl.
-  - subst ip fq. apply (eff_const_loop cmd _ v4loop16 host_ip_empty). left. reflexivity.
-  - subst ip. destruct (host_ip_local fq HN) as (h & Hh & Hc). apply (eff_const_loop cmd _ h Hh Hc).
-  - pose proof (unspec_sound ip HU) as Hu. destruct ip as [|b t]; [discriminate Hu|].
-    subst cmd. apply eff_unspec_loop. exact Hu.
-Qed.
-
-(* soundness for the private class *)
-Lemma eff_priv_sound cmd a : PrivDest a ->
-  exists ip, effective_ip cmd a = Some ip /\ is_private ip = true.
-Proof.
-  destruct a as [ip fq]. unfold PrivDest, effective_ip. cbn [a_ip a_fqdn]. intros [HP ->].
-  pose proof (priv_sound ip HP) as Hp. destruct ip as [|b t]; [discriminate Hp|].
-  rewrite host_ip_ip.
-  destruct (is_unspecified (b :: t)) eqn:Eu.
-  - apply unspec_not_priv in Eu. congruence.
-  - cbn [andb]. exists (b :: t). split; [reflexivity | exact Hp].
-Qed.
-
-(* well-formed parsed address: wire bytes, and IP and name never both present *)
 Definition wf_addr (a : addr) : Prop := bytes_ok (a_ip a) /\ (a_ip a = [] \/ a_fqdn a = []).
 
-Lemma eff_loop_complete cmd a ip : wf_addr a ->
-  effective_ip cmd a = Some ip -> is_loopback ip = true -> LoopDest cmd a.
-Proof.
-  destruct a as [aip fq]. unfold wf_addr, LoopDest, effective_ip. cbn [a_ip a_fqdn].
-  intros [Hok Hx] He Hl. destruct aip as [|b t].
-  - (* a name or the empty host *)
-    destruct fq as [|c s]; [right; left; auto|].
-    destruct (host_ip (mkAddr [] (c :: s))) as [h|] eqn:Eh; [|discriminate He].
-    right. right. left. split; [reflexivity|].
-    unfold LocalName. revert Eh. unfold host_ip. cbn [a_ip a_fqdn]. cbv zeta.
-    destruct (ascii_lower (c :: s)) as [|c' d] eqn:Ed; [discriminate Ed|].
-    destruct (mem_bytes (c' :: d) names4) eqn:E4.
-    + intros _. apply in_or_app. left. apply mem_bytes_In. exact E4.
-    + destruct (mem_bytes (c' :: d) names6) eqn:E6; [|discriminate].
-      intros _. apply in_or_app. right. apply mem_bytes_In. exact E6.
-  - destruct Hx as [Hx | ->]; [discriminate Hx|].
-    rewrite host_ip_ip in He.
-    destruct (is_unspecified (b :: t)) eqn:Eu; destruct (cmd =? CMD_CONNECT) eqn:Ec; cbn [andb] in He;
-      injection He as <-.
-    + right. right. right. apply N.eqb_eq in Ec. split; [apply unspec_inv; exact Eu | auto].
-    + left. split; [apply loop_inv; assumption | reflexivity].
-    + left. split; [apply loop_inv; assumption | reflexivity].
-    + left. split; [apply loop_inv; assumption | reflexivity].
-Qed.
+Lemma is_private_nil : is_private [] = false. Proof. reflexivity. Qed.
+Lemma is_loopback_nil : is_loopback [] = false. Proof. reflexivity. Qed.
+Lemma is_unspecified_nil : is_unspecified [] = false. Proof. reflexivity. Qed.
 
-Lemma eff_priv_complete cmd a ip : wf_addr a ->
-  effective_ip cmd a = Some ip -> is_private ip = true -> PrivDest a.
-Proof.
-  destruct a as [aip fq]. unfold wf_addr, PrivDest, effective_ip. cbn [a_ip a_fqdn].
-  intros [Hok Hx] He Hp. destruct aip as [|b t].
-  - exfalso. destruct (host_ip (mkAddr [] fq)) as [h|] eqn:Eh; [|discriminate He].
-    apply host_ip_name in Eh. rewrite (eff_of_const cmd h Eh) in He. injection He as <-.
-    destruct Eh as [-> | ->]; discriminate Hp.
-  - destruct Hx as [Hx | ->]; [discriminate Hx|].
-    rewrite host_ip_ip in He.
-    destruct (is_unspecified (b :: t) && (cmd =? CMD_CONNECT)); injection He as <-.
-    + discriminate Hp.
-    + split; [apply priv_inv; assumption | reflexivity].
-Qed.
-
-(* ------------------------------------------------------------------ the decision on a parsed request *)
-
-Lemma find_user_loop cfg uname : user_loop cfg uname = false ->
-  match find_user cfg uname with Some u => u_loop u = false | None => True end.
-Proof. unfold user_loop. destruct (find_user cfg uname); auto. Qed.
-Lemma find_user_priv cfg uname : user_priv cfg uname = false ->
-  match find_user cfg uname with Some u => u_priv u = false | None => True end.
-Proof. unfold user_priv. destruct (find_user cfg uname); auto. Qed.
-
-Lemma reject_loop cfg uname cmd a :
-  LoopDest cmd a -> c_allow_loop_dest cfg = false -> user_loop cfg uname = false ->
-  reject_local cfg uname cmd a = true.
-Proof.
-  intros HL Hc Hu. destruct (eff_loop_sound cmd a HL) as (ip & He & Hl).
-  unfold reject_local. rewrite He. cbv zeta. rewrite Hl, (loop_not_priv ip Hl), Hc. cbn [negb andb].
-  apply find_user_loop in Hu. destruct (find_user cfg uname) as [u|]; [|reflexivity].
-  rewrite Hu. reflexivity.
-Qed.
-
-Lemma reject_priv cfg uname cmd a :
-  PrivDest a -> user_priv cfg uname = false -> reject_local cfg uname cmd a = true.
-Proof.
-  intros HP Hu. destruct (eff_priv_sound cmd a HP) as (ip & He & Hp).
-  assert (Hl : is_loopback ip = false).
-  { destruct (is_loopback ip) eqn:E; [|reflexivity]. apply loop_not_priv in E. congruence. }
-  unfold reject_local. rewrite He. cbv zeta. rewrite Hp, Hl. cbn [negb andb].
-  apply find_user_priv in Hu. destruct (find_user cfg uname) as [u|]; [|reflexivity].
-  rewrite Hu. reflexivity.
-Qed.
-
-Lemma not_reject cfg uname cmd a : wf_addr a ->
-  (LoopDest cmd a -> user_loop cfg uname = true \/ c_allow_loop_dest cfg = true) ->
-  (PrivDest a -> user_priv cfg uname = true) ->
-  reject_local cfg uname cmd a = false.
-Proof.
-  intros Hwf HL HP. unfold reject_local.
-  destruct (effective_ip cmd a) as [ip|] eqn:He; [|reflexivity]. cbv zeta.
-  destruct (is_private ip) eqn:Ep; destruct (is_loopback ip) eqn:El; cbn [negb andb]; try reflexivity.
-  - apply loop_not_priv in El. congruence.
-  - pose proof (HP (eff_priv_complete cmd a ip Hwf He Ep)) as Hu. unfold user_priv in Hu.
-    destruct (find_user cfg uname) as [u|]; [|discriminate Hu]. rewrite Hu. reflexivity.
-  - destruct (HL (eff_loop_complete cmd a ip Hwf He El)) as [Hu | Hc].
-    + destruct (c_allow_loop_dest cfg); [reflexivity|]. unfold user_loop in Hu.
-      destruct (find_user cfg uname) as [u|]; [|discriminate Hu]. rewrite Hu. reflexivity.
-    + rewrite Hc. reflexivity.
-Qed.
 
 (* ------------------------------------------------------------------ parsing *)
 
@@ -440,54 +277,361 @@ Proof.
   intro H. injection H as _ <-. eapply parse_addr_wf; eauto.
 Qed.
 
-(* ------------------------------------------------------------------ FindAction on requests *)
-
 Definition is_conn_or_assoc (cmd : N) : Prop := cmd = CMD_CONNECT \/ cmd = CMD_ASSOC.
 
-Lemma decide_cmd cfg uname cmd a idx : is_conn_or_assoc cmd ->
-  decide cfg uname cmd a idx =
-  if reject_local cfg uname cmd a then (ACT_REJECT, None) else rules_action cfg a idx.
+(* ------------------------------------------------------------------ the model with fixes/C12-domain-literal.diff
+   (fx = true), for an arbitrary reading lit of domain strings as IP literals *)
+
+Section Lit.
+Variable lit : bytes -> option bytes.
+
+Lemma host_ip_cases a h : host_ip true lit a = Some h ->
+  (a_ip a = h /\ h <> []) \/
+  (a_ip a = [] /\ lit (a_fqdn a) = Some h) \/
+  (a_ip a = [] /\ lit (a_fqdn a) = None /\ a_fqdn a = [] /\ h = v4loop16) \/
+  (a_ip a = [] /\ lit (a_fqdn a) = None /\ LocalName (a_fqdn a) /\ (h = v4loop16 \/ h = v6loop)).
+Proof.
+  destruct a as [ip fq]. unfold host_ip. cbn [a_ip a_fqdn]. destruct ip as [|b t].
+  - destruct (lit fq) as [l|] eqn:EL.
+    + intro H. injection H as <-. right. left. auto.
+    + cbv zeta. unfold LocalName. destruct (ascii_lower fq) as [|c d] eqn:Ed.
+      * intro H. injection H as <-. right. right. left.
+        unfold ascii_lower in Ed. apply map_eq_nil in Ed. auto.
+      * destruct (mem_bytes (strip_dot (c :: d)) names4) eqn:E4.
+        { intro H. injection H as <-. right. right. right. repeat split; auto.
+          apply in_or_app. left. apply mem_bytes_In. exact E4. }
+        destruct (mem_bytes (strip_dot (c :: d)) names6) eqn:E6; [|discriminate].
+        intro H. injection H as <-. right. right. right. repeat split; auto.
+        apply in_or_app. right. apply mem_bytes_In. exact E6.
+  - intro H. injection H as <-. left. split; [reflexivity | discriminate].
+Qed.
+
+Lemma host_ip_of_hostis a ip : HostIs lit a ip -> ip <> [] -> host_ip true lit a = Some ip.
+Proof.
+  destruct a as [aip fq]. unfold HostIs, host_ip. cbn [a_ip a_fqdn]. intros [[-> ->] | [-> EL]] Hne.
+  - destruct ip as [|b t]; [contradiction Hne; reflexivity | reflexivity].
+  - rewrite EL. reflexivity.
+Qed.
+
+Lemma host_ip_empty : lit [] = None -> host_ip true lit (mkAddr [] []) = Some v4loop16.
+Proof. intro H. unfold host_ip. cbn [a_ip a_fqdn]. rewrite H. reflexivity. Qed.
+
+Lemma host_ip_nolit fq : lit fq = None ->
+  host_ip true lit (mkAddr [] fq) =
+  match ascii_lower fq with
+  | [] => Some v4loop16
+  | _ :: _ => if mem_bytes (strip_dot (ascii_lower fq)) names4 then Some v4loop16
+              else if mem_bytes (strip_dot (ascii_lower fq)) names6 then Some v6loop else None
+  end.
+Proof. intro H. unfold host_ip. cbn [a_ip a_fqdn]. rewrite H. reflexivity. Qed.
+
+Lemma local_name_mem fq : LocalName fq ->
+  mem_bytes (strip_dot (ascii_lower fq)) names4 = true \/ mem_bytes (strip_dot (ascii_lower fq)) names6 = true.
+Proof.
+  unfold LocalName. intro HN. apply in_app_or in HN.
+  destruct HN as [HN | HN]; [left | right]; apply mem_bytes_In; exact HN.
+Qed.
+
+Lemma host_ip_local fq : lit_sane lit -> LocalName fq ->
+  exists h, host_ip true lit (mkAddr [] fq) = Some h /\ (h = v4loop16 \/ h = v6loop).
+Proof.
+  intros [_ Hn] HN.
+  assert (EL : lit fq = None).
+  { destruct (lit fq) as [l|] eqn:EL; [exfalso; exact (Hn fq l EL HN) | reflexivity]. }
+  rewrite (host_ip_nolit fq EL). apply local_name_mem in HN.
+  destruct (ascii_lower fq) as [|c d] eqn:Ed.
+  - exists v4loop16. split; [reflexivity | left; reflexivity].
+  - destruct (mem_bytes (strip_dot (c :: d)) names4) eqn:E4.
+    + exists v4loop16. split; [reflexivity | left; reflexivity].
+    + destruct HN as [HN | HN]; [discriminate HN|]. rewrite HN.
+      exists v6loop. split; [reflexivity | right; reflexivity].
+Qed.
+
+Lemma eff_of_const cmd ip : ip = v4loop16 \/ ip = v6loop ->
+  (if is_unspecified ip && (cmd =? CMD_CONNECT) then Some v4loop16 else Some ip) = Some ip.
+Proof.
+  intros [-> | ->].
+  - replace (is_unspecified v4loop16) with false by (vm_compute; reflexivity). reflexivity.
+  - replace (is_unspecified v6loop) with false by (vm_compute; reflexivity). reflexivity.
+Qed.
+
+Lemma eff_host_loop cmd a h : host_ip true lit a = Some h -> is_loopback h = true ->
+  exists ip, effective_ip true lit cmd a = Some ip /\ is_loopback ip = true.
+Proof.
+  intros Hh Hl. unfold effective_ip. rewrite Hh.
+  destruct (is_unspecified h && (cmd =? CMD_CONNECT)).
+  - exists v4loop16. split; [reflexivity | apply v4loop16_facts].
+  - exists h. split; [reflexivity | exact Hl].
+Qed.
+
+Lemma eff_host_unspec a h : host_ip true lit a = Some h -> is_unspecified h = true ->
+  exists ip, effective_ip true lit CMD_CONNECT a = Some ip /\ is_loopback ip = true.
+Proof.
+  intros Hh Hu. unfold effective_ip. rewrite Hh, Hu, N.eqb_refl. cbn [andb].
+  exists v4loop16. split; [reflexivity | apply v4loop16_facts].
+Qed.
+
+Lemma eff_host_priv cmd a h : host_ip true lit a = Some h -> is_private h = true ->
+  effective_ip true lit cmd a = Some h.
+Proof.
+  intros Hh Hp. unfold effective_ip. rewrite Hh.
+  destruct (is_unspecified h) eqn:Eu; [apply unspec_not_priv in Eu; congruence|]. reflexivity.
+Qed.
+
+(* soundness for the loopback class *)
+Lemma eff_loop_sound cmd a : lit_sane lit -> LoopDest lit cmd a ->
+  exists ip, effective_ip true lit cmd a = Some ip /\ is_loopback ip = true.
+Proof.
+  intros Hs [(ip & HH & HL) | [[Hi Hf] | [[Hi HN] | (ip & HH & HU & Hc)]]].
+  - pose proof (loop_sound ip HL) as Hl.
+    assert (Hne : ip <> []) by (intro; subst ip; discriminate Hl).
+    exact (eff_host_loop cmd a ip (host_ip_of_hostis a ip HH Hne) Hl).
+  - destruct a as [aip fq]. cbn [a_ip a_fqdn] in Hi, Hf. subst aip fq.
+    exact (eff_host_loop cmd _ v4loop16 (host_ip_empty (proj1 Hs)) (proj1 (proj2 v4loop16_facts))).
+  - destruct a as [aip fq]. cbn [a_ip a_fqdn] in Hi, HN. subst aip.
+    destruct (host_ip_local fq Hs HN) as (h & Hh & Hc).
+    apply (eff_host_loop cmd _ h Hh). destruct Hc as [-> | ->]; [apply v4loop16_facts | apply v6loop_facts].
+  - pose proof (unspec_sound ip HU) as Hu.
+    assert (Hne : ip <> []) by (intro; subst ip; discriminate Hu).
+    subst cmd. exact (eff_host_unspec a ip (host_ip_of_hostis a ip HH Hne) Hu).
+Qed.
+
+(* soundness for the private class *)
+Lemma eff_priv_sound cmd a : PrivDest lit a ->
+  exists ip, effective_ip true lit cmd a = Some ip /\ is_private ip = true.
+Proof.
+  intros (ip & HH & HP). pose proof (priv_sound ip HP) as Hp.
+  assert (Hne : ip <> []) by (intro; subst ip; discriminate Hp).
+  exists ip. split; [|exact Hp]. exact (eff_host_priv cmd a ip (host_ip_of_hostis a ip HH Hne) Hp).
+Qed.
+
+(* from the host the code judges back to the sets of the property *)
+Lemma host_is_of_cases a h : wf_addr a ->
+  (a_ip a = h /\ h <> []) \/ (a_ip a = [] /\ lit (a_fqdn a) = Some h) -> HostIs lit a h.
+Proof.
+  intros [_ Hx] [[Hi Hne] | [Hi EL]].
+  - left. split; [exact Hi|]. destruct Hx as [Hx | Hx]; [congruence | exact Hx].
+  - right. auto.
+Qed.
+
+Lemma host_bytes_ok a h : wf_addr a -> lit_bytes_ok lit ->
+  (a_ip a = h /\ h <> []) \/ (a_ip a = [] /\ lit (a_fqdn a) = Some h) -> bytes_ok h.
+Proof.
+  intros [Hok _] Hl [[Hi _] | [_ EL]]; [rewrite <- Hi; exact Hok | exact (Hl _ _ EL)].
+Qed.
+
+Lemma eff_loop_complete cmd a ip : wf_addr a -> lit_bytes_ok lit ->
+  effective_ip true lit cmd a = Some ip -> is_loopback ip = true -> LoopDest lit cmd a.
+Proof.
+  intros Hwf Hlb He Hl. unfold effective_ip in He.
+  destruct (host_ip true lit a) as [h|] eqn:Eh; [|discriminate He].
+  pose proof (host_ip_cases a h Eh) as Hc.
+  destruct (is_unspecified h) eqn:Eu; destruct (cmd =? CMD_CONNECT) eqn:Ec; cbn [andb] in He; injection He as <-.
+  - (* CONNECT to the unspecified address *)
+    apply N.eqb_eq in Ec. right. right. right. exists h.
+    destruct Hc as [Hc | [Hc | [(_ & _ & _ & ->) | (_ & _ & _ & [-> | ->])]]];
+      try discriminate Eu.
+    + split; [apply host_is_of_cases; auto | split; [apply unspec_inv; exact Eu | exact Ec]].
+    + split; [apply host_is_of_cases; auto | split; [apply unspec_inv; exact Eu | exact Ec]].
+  - destruct Hc as [Hc | [Hc | [(Hi & _ & Hf & _) | (Hi & _ & HN & _)]]].
+    + left. exists h. split; [apply host_is_of_cases; auto | apply loop_inv; [eapply host_bytes_ok; eauto | exact Hl]].
+    + left. exists h. split; [apply host_is_of_cases; auto | apply loop_inv; [eapply host_bytes_ok; eauto | exact Hl]].
+    + right. left. auto.
+    + right. right. left. auto.
+  - destruct Hc as [Hc | [Hc | [(Hi & _ & Hf & _) | (Hi & _ & HN & _)]]].
+    + left. exists h. split; [apply host_is_of_cases; auto | apply loop_inv; [eapply host_bytes_ok; eauto | exact Hl]].
+    + left. exists h. split; [apply host_is_of_cases; auto | apply loop_inv; [eapply host_bytes_ok; eauto | exact Hl]].
+    + right. left. auto.
+    + right. right. left. auto.
+  - destruct Hc as [Hc | [Hc | [(Hi & _ & Hf & _) | (Hi & _ & HN & _)]]].
+    + left. exists h. split; [apply host_is_of_cases; auto | apply loop_inv; [eapply host_bytes_ok; eauto | exact Hl]].
+    + left. exists h. split; [apply host_is_of_cases; auto | apply loop_inv; [eapply host_bytes_ok; eauto | exact Hl]].
+    + right. left. auto.
+    + right. right. left. auto.
+Qed.
+
+Lemma eff_priv_complete cmd a ip : wf_addr a -> lit_bytes_ok lit ->
+  effective_ip true lit cmd a = Some ip -> is_private ip = true -> PrivDest lit a.
+Proof.
+  intros Hwf Hlb He Hp. unfold effective_ip in He.
+  destruct (host_ip true lit a) as [h|] eqn:Eh; [|discriminate He].
+  pose proof (host_ip_cases a h Eh) as Hc.
+  destruct (is_unspecified h && (cmd =? CMD_CONNECT)); injection He as <-; [discriminate Hp|].
+  destruct Hc as [Hc | [Hc | [(_ & _ & _ & ->) | (_ & _ & _ & [-> | ->])]]]; try discriminate Hp.
+  - exists h. split; [apply host_is_of_cases; auto | apply priv_inv; [eapply host_bytes_ok; eauto | exact Hp]].
+  - exists h. split; [apply host_is_of_cases; auto | apply priv_inv; [eapply host_bytes_ok; eauto | exact Hp]].
+Qed.
+
+(* ------------------------------------------------------------------ the decision on a parsed request *)
+
+Lemma find_user_loop cfg uname : user_loop cfg uname = false ->
+  match find_user cfg uname with Some u => u_loop u = false | None => True end.
+Proof. unfold user_loop. destruct (find_user cfg uname); auto. Qed.
+Lemma find_user_priv cfg uname : user_priv cfg uname = false ->
+  match find_user cfg uname with Some u => u_priv u = false | None => True end.
+Proof. unfold user_priv. destruct (find_user cfg uname); auto. Qed.
+
+Lemma reject_loop cfg uname cmd a : lit_sane lit ->
+  LoopDest lit cmd a -> c_allow_loop_dest cfg = false -> user_loop cfg uname = false ->
+  reject_local true lit cfg uname cmd a = true.
+Proof.
+  intros Hs HL Hc Hu. destruct (eff_loop_sound cmd a Hs HL) as (ip & He & Hl).
+  unfold reject_local. rewrite He. cbv zeta. rewrite Hl, (loop_not_priv ip Hl), Hc. cbn [negb andb].
+  apply find_user_loop in Hu. destruct (find_user cfg uname) as [u|]; [|reflexivity].
+  rewrite Hu. reflexivity.
+Qed.
+
+Lemma reject_priv cfg uname cmd a :
+  PrivDest lit a -> user_priv cfg uname = false -> reject_local true lit cfg uname cmd a = true.
+Proof.
+  intros HP Hu. destruct (eff_priv_sound cmd a HP) as (ip & He & Hp).
+  assert (Hl : is_loopback ip = false).
+  { destruct (is_loopback ip) eqn:E; [|reflexivity]. apply loop_not_priv in E. congruence. }
+  unfold reject_local. rewrite He. cbv zeta. rewrite Hp, Hl. cbn [negb andb].
+  apply find_user_priv in Hu. destruct (find_user cfg uname) as [u|]; [|reflexivity].
+  rewrite Hu. reflexivity.
+Qed.
+
+Lemma not_reject cfg uname cmd a : wf_addr a -> lit_bytes_ok lit ->
+  (LoopDest lit cmd a -> user_loop cfg uname = true \/ c_allow_loop_dest cfg = true) ->
+  (PrivDest lit a -> user_priv cfg uname = true) ->
+  reject_local true lit cfg uname cmd a = false.
+Proof.
+  intros Hwf Hlb HL HP. unfold reject_local.
+  destruct (effective_ip true lit cmd a) as [ip|] eqn:He; [|reflexivity]. cbv zeta.
+  destruct (is_private ip) eqn:Ep; destruct (is_loopback ip) eqn:El; cbn [negb andb]; try reflexivity.
+  - apply loop_not_priv in El. congruence.
+  - pose proof (HP (eff_priv_complete cmd a ip Hwf Hlb He Ep)) as Hu. unfold user_priv in Hu.
+    destruct (find_user cfg uname) as [u|]; [|discriminate Hu]. rewrite Hu. reflexivity.
+  - destruct (HL (eff_loop_complete cmd a ip Hwf Hlb He El)) as [Hu | Hc].
+    + destruct (c_allow_loop_dest cfg); [reflexivity|]. unfold user_loop in Hu.
+      destruct (find_user cfg uname) as [u|]; [|discriminate Hu]. rewrite Hu. reflexivity.
+    + rewrite Hc. reflexivity.
+Qed.
+
+(* ------------------------------------------------------------------ FindAction on requests *)
+
+Lemma decide_cmd fx cfg uname cmd a idx : is_conn_or_assoc cmd ->
+  decide fx lit cfg uname cmd a idx =
+  if reject_local fx lit cfg uname cmd a then (ACT_REJECT, None) else rules_action cfg a idx.
 Proof.
   intros [-> | ->]; unfold decide; rewrite N.eqb_refl; [reflexivity | rewrite orb_true_r; reflexivity].
 Qed.
 
-Lemma c12_reject_local : forall cfg uname data idx cmd a,
+Lemma c12_reject_local : lit_sane lit -> forall cfg uname data idx cmd a,
   parse_request data = Some (cmd, a) -> is_conn_or_assoc cmd ->
-  (LoopDest cmd a -> c_allow_loop_dest cfg = false -> user_loop cfg uname = false ->
-     find_action cfg true uname data idx = (ACT_REJECT, None)) /\
-  (PrivDest a -> user_priv cfg uname = false ->
-     find_action cfg true uname data idx = (ACT_REJECT, None)).
+  (LoopDest lit cmd a -> c_allow_loop_dest cfg = false -> user_loop cfg uname = false ->
+     find_action true lit cfg true uname data idx = (ACT_REJECT, None)) /\
+  (PrivDest lit a -> user_priv cfg uname = false ->
+     find_action true lit cfg true uname data idx = (ACT_REJECT, None)).
 Proof.
-  intros cfg uname data idx cmd a Hp Hc. unfold find_action. rewrite Hp, (decide_cmd _ _ _ _ _ Hc). split.
-  - intros HL Ha Hu. rewrite (reject_loop cfg uname cmd a HL Ha Hu). reflexivity.
+  intros Hs cfg uname data idx cmd a Hp Hc. unfold find_action. rewrite Hp, (decide_cmd _ _ _ _ _ _ Hc). split.
+  - intros HL Ha Hu. rewrite (reject_loop cfg uname cmd a Hs HL Ha Hu). reflexivity.
   - intros HP Hu. rewrite (reject_priv cfg uname cmd a HP Hu). reflexivity.
 Qed.
 
-Lemma c12_allowed_unaffected : forall cfg uname data idx cmd a,
+Lemma c12_allowed_unaffected : lit_bytes_ok lit -> forall cfg uname data idx cmd a,
   bytes_ok data -> parse_request data = Some (cmd, a) -> is_conn_or_assoc cmd ->
-  (LoopDest cmd a -> user_loop cfg uname = true \/ c_allow_loop_dest cfg = true) ->
-  (PrivDest a -> user_priv cfg uname = true) ->
-  find_action cfg true uname data idx = rules_action cfg a idx.
+  (LoopDest lit cmd a -> user_loop cfg uname = true \/ c_allow_loop_dest cfg = true) ->
+  (PrivDest lit a -> user_priv cfg uname = true) ->
+  find_action true lit cfg true uname data idx = rules_action cfg a idx.
 Proof.
-  intros cfg uname data idx cmd a Hok Hp Hc HL HP. unfold find_action.
-  rewrite Hp, (decide_cmd _ _ _ _ _ Hc).
-  rewrite (not_reject cfg uname cmd a (parse_request_wf data cmd a Hok Hp) HL HP). reflexivity.
+  intros Hlb cfg uname data idx cmd a Hok Hp Hc HL HP. unfold find_action.
+  rewrite Hp, (decide_cmd _ _ _ _ _ _ Hc).
+  rewrite (not_reject cfg uname cmd a (parse_request_wf data cmd a Hok Hp) Hlb HL HP). reflexivity.
 Qed.
 
-(* the one exception to the text of the property, kept on purpose (RFC 1928: a client that does not
-   know its address sends all zeros in UDP ASSOCIATE; the server never sends anything there) *)
-Definition assoc_unspec_witness : bytes := [5; 3; 0; 1; 0; 0; 0; 0; 0; 0].
-Definition empty_cfg : config := mkConfig false [] [] [].
+(* ------------------------------------------------------------------ the UDP relay *)
 
-Lemma c12_assoc_unspecified_refuted :
-  exists cfg uname data idx a,
-    parse_request data = Some (CMD_ASSOC, a) /\ UnspecIP (a_ip a) /\ a_fqdn a = [] /\
-    c_allow_loop_dest cfg = false /\ user_loop cfg uname = false /\
-    find_action cfg true uname data idx = (ACT_DIRECT, None).
+Lemma relay_step_sent fx cfg uname stop pkt a : relay_step fx lit cfg uname stop pkt = RSent a ->
+  exists data, parse_request data = Some (CMD_CONNECT, a) /\
+               fst (find_action fx lit cfg true uname data 0) <> ACT_REJECT.
 Proof.
-  exists empty_cfg, [], assoc_unspec_witness, 0, (mkAddr zero4 []).
-  repeat split; try reflexivity. constructor.
+  unfold relay_step. destruct pkt as [|r0 [|r1 [|frag r]]]; try (destruct stop; discriminate).
+  destruct (length (r0 :: r1 :: frag :: r) <=? 6)%nat; [destruct stop; discriminate|].
+  destruct (negb ((r0 =? 0) && (r1 =? 0))); [destruct stop; discriminate|].
+  destruct (negb (frag =? 0)); [destruct stop; discriminate|].
+  destruct (parse_addr r) as [[a' rest]|] eqn:E; [|destruct stop; discriminate].
+  apply parse_addr_consumed in E as (c & -> & Ec).
+  replace (firstn (length (c ++ rest) - length rest) (c ++ rest)) with c.
+  2:{ rewrite app_length, Nat.add_sub, firstn_app, Nat.sub_diag, firstn_all, firstn_O, app_nil_r. reflexivity. }
+  destruct (fst (find_action fx lit cfg true uname (VER :: CMD_CONNECT :: 0 :: c) 0) =? ACT_REJECT) eqn:Er;
+    [discriminate|].
+  intro H. assert (a' = a) as ->.
+  { destruct (a_ip a'); destruct (a_fqdn a'); try discriminate H; injection H as <-; reflexivity. }
+  exists (VER :: CMD_CONNECT :: 0 :: c). split.
+  - unfold parse_request. rewrite N.eqb_refl, Ec. reflexivity.
+  - apply N.eqb_neq. exact Er.
 Qed.
+
+Lemma relay_run_in fx cfg uname stop pkts a : In a (relay_run fx lit cfg uname stop pkts) ->
+  exists pkt, In pkt pkts /\ relay_step fx lit cfg uname stop pkt = RSent a.
+Proof.
+  induction pkts as [|p ps IH]; cbn [relay_run]; [intros []|].
+  destruct (relay_step fx lit cfg uname stop p) as [a'| |] eqn:E.
+  - intros [<- | Hin]; [exists p; split; [left; reflexivity | exact E]|].
+    destruct (IH Hin) as (q & Hq & Hs). exists q. split; [right; exact Hq | exact Hs].
+  - intro Hin. destruct (IH Hin) as (q & Hq & Hs). exists q. split; [right; exact Hq | exact Hs].
+  - intros [].
+Qed.
+
+(* no datagram of any association goes to a local destination the user is not allowed to reach - whether the
+   header carries the address in binary or as a literal in a domain; the unspecified address counts without
+   exception *)
+Lemma c12_relay_no_local : lit_sane lit -> forall cfg uname stop pkts a,
+  In a (relay_run true lit cfg uname stop pkts) ->
+  (LoopDestFull lit a -> c_allow_loop_dest cfg = false -> user_loop cfg uname = true) /\
+  (PrivDest lit a -> user_priv cfg uname = true).
+Proof.
+  intros Hsane cfg uname stop pkts a Hin.
+  destruct (relay_run_in _ _ _ _ _ _ Hin) as (pkt & _ & Hs).
+  destruct (relay_step_sent _ _ _ _ _ _ Hs) as (data & Hp & Hne).
+  destruct (c12_reject_local Hsane cfg uname data 0 CMD_CONNECT a Hp (or_introl eq_refl)) as [H1 H2].
+  split.
+  - intros HL Hc. destruct (user_loop cfg uname) eqn:Eu; [reflexivity|].
+    exfalso. apply Hne. rewrite (H1 HL Hc eq_refl). reflexivity.
+  - intros HP. destruct (user_priv cfg uname) eqn:Eu; [reflexivity|].
+    exfalso. apply Hne. rewrite (H2 HP eq_refl). reflexivity.
+Qed.
+
+(* and a datagram to any other destination is relayed exactly when the rule list does not say REJECT *)
+Lemma relay_step_filter fx cfg uname stop c a : parse_addr c = Some (a, []) ->
+  ~ (a_ip a = [] /\ a_fqdn a = []) ->
+  forall payload, (3 < length (c ++ payload))%nat ->
+  relay_step fx lit cfg uname stop ([0; 0; 0] ++ c ++ payload) =
+  if fst (find_action fx lit cfg true uname (VER :: CMD_CONNECT :: 0 :: c) 0) =? ACT_REJECT then RDropped else RSent a.
+Proof.
+  intros Hc Hh payload Hlen. unfold relay_step. cbn [app].
+  match goal with |- context [(?n <=? 6)%nat] => destruct (n <=? 6)%nat eqn:El end.
+  { apply Nat.leb_le in El. cbn [length] in El. lia. }
+  cbn [N.eqb andb negb].
+  assert (Hp : parse_addr (c ++ payload) = Some (a, payload)).
+  { revert Hc. unfold parse_addr. destruct c as [|t r]; [discriminate|]. cbn [app].
+    destruct (t =? ATYP4); [|destruct (t =? ATYP6); [|destruct (t =? ATYPD); [|discriminate]]].
+    - destruct (take 4 r) as [[ip r1]|] eqn:T1; [|discriminate].
+      destruct (take 2 r1) as [[pt r2]|] eqn:T2; [|discriminate]. intro H. injection H as <- ->.
+      apply take_spec in T1 as [-> L1]. apply take_spec in T2 as [-> L2].
+      rewrite <- app_assoc. rewrite <- L1 at 1. rewrite take_app. rewrite app_nil_r.
+      rewrite <- L2 at 1. rewrite take_app. reflexivity.
+    - destruct (take 16 r) as [[ip r1]|] eqn:T1; [|discriminate].
+      destruct (take 2 r1) as [[pt r2]|] eqn:T2; [|discriminate]. intro H. injection H as <- ->.
+      apply take_spec in T1 as [-> L1]. apply take_spec in T2 as [-> L2].
+      rewrite <- app_assoc. rewrite <- L1 at 1. rewrite take_app. rewrite app_nil_r.
+      rewrite <- L2 at 1. rewrite take_app. reflexivity.
+    - destruct r as [|n r0]; [discriminate|]. cbn [app].
+      destruct (take (N.to_nat n) r0) as [[d r1]|] eqn:T1; [|discriminate].
+      destruct (take 2 r1) as [[pt r2]|] eqn:T2; [|discriminate]. intro H. injection H as <- ->.
+      apply take_spec in T1 as [-> L1]. apply take_spec in T2 as [-> L2].
+      rewrite <- app_assoc. rewrite <- L1 at 1. rewrite take_app. rewrite app_nil_r.
+      rewrite <- L2 at 1. rewrite take_app. reflexivity. }
+  rewrite Hp.
+  replace (firstn (length (c ++ payload) - length payload) (c ++ payload)) with c.
+  2:{ rewrite app_length, Nat.add_sub, firstn_app, Nat.sub_diag, firstn_all, firstn_O, app_nil_r. reflexivity. }
+  destruct (fst (find_action fx lit cfg true uname (VER :: CMD_CONNECT :: 0 :: c) 0) =? ACT_REJECT); [reflexivity|].
+  destruct (a_ip a); destruct (a_fqdn a); try reflexivity. exfalso. apply Hh. auto.
+Qed.
+
+End Lit.
 
 (* ------------------------------------------------------------------ first match *)
 
@@ -523,94 +667,87 @@ Proof.
     destruct (a_ip a); destruct (a_fqdn a); reflexivity.
 Qed.
 
-(* ------------------------------------------------------------------ the UDP relay *)
 
-Lemma relay_step_sent cfg uname stop pkt a : relay_step cfg uname stop pkt = RSent a ->
-  exists data, parse_request data = Some (CMD_CONNECT, a) /\
-               fst (find_action cfg true uname data 0) <> ACT_REJECT.
+(* ------------------------------------------------------------------ witnesses *)
+
+Definition no_lit : bytes -> option bytes := fun _ => None.
+
+Lemma no_lit_sane : lit_sane no_lit.
+Proof. split; [reflexivity | intros s ip H; discriminate H]. Qed.
+Lemma no_lit_ok : lit_bytes_ok no_lit.
+Proof. intros s ip H. discriminate H. Qed.
+
+(* the one exception to the text of the property, kept on purpose (RFC 1928: a client that does not
+   know its address sends all zeros in UDP ASSOCIATE; the server never sends anything there) *)
+Definition assoc_unspec_witness : bytes := [5; 3; 0; 1; 0; 0; 0; 0; 0; 0].
+Definition empty_cfg : config := mkConfig false [] [] [].
+
+Lemma c12_assoc_unspecified_refuted :
+  exists lit cfg uname data idx a,
+    lit_sane lit /\
+    parse_request data = Some (CMD_ASSOC, a) /\ UnspecIP (a_ip a) /\ a_fqdn a = [] /\
+    c_allow_loop_dest cfg = false /\ user_loop cfg uname = false /\
+    find_action true lit cfg true uname data idx = (ACT_DIRECT, None).
 Proof.
-  unfold relay_step. destruct pkt as [|r0 [|r1 [|frag r]]]; try (destruct stop; discriminate).
-  destruct (length (r0 :: r1 :: frag :: r) <=? 6)%nat; [destruct stop; discriminate|].
-  destruct (negb ((r0 =? 0) && (r1 =? 0))); [destruct stop; discriminate|].
-  destruct (negb (frag =? 0)); [destruct stop; discriminate|].
-  destruct (parse_addr r) as [[a' rest]|] eqn:E; [|destruct stop; discriminate].
-  apply parse_addr_consumed in E as (c & -> & Ec).
-  replace (firstn (length (c ++ rest) - length rest) (c ++ rest)) with c.
-  2:{ rewrite app_length, Nat.add_sub, firstn_app, Nat.sub_diag, firstn_all, firstn_O, app_nil_r. reflexivity. }
-  destruct (fst (find_action cfg true uname (VER :: CMD_CONNECT :: 0 :: c) 0) =? ACT_REJECT) eqn:Er;
-    [discriminate|].
-  intro H. assert (a' = a) as ->.
-  { destruct (a_ip a'); destruct (a_fqdn a'); try discriminate H; injection H as <-; reflexivity. }
-  exists (VER :: CMD_CONNECT :: 0 :: c). split.
-  - unfold parse_request. rewrite N.eqb_refl, Ec. reflexivity.
-  - apply N.eqb_neq. exact Er.
+  exists no_lit, empty_cfg, [], assoc_unspec_witness, 0, (mkAddr zero4 []).
+  split; [exact no_lit_sane|]. repeat split; try reflexivity. constructor.
 Qed.
 
-Lemma relay_run_in cfg uname stop pkts a : In a (relay_run cfg uname stop pkts) ->
-  exists pkt, In pkt pkts /\ relay_step cfg uname stop pkt = RSent a.
+(* the code before fixes/C12-domain-literal.diff (fx = false): a CONNECT of the unknown user to the
+   domain-typed literal "127.0.0.1", and to "localhost.", is in LoopDest and gets DIRECT *)
+Definition s_127_0_0_1 : bytes := [49; 50; 55; 46; 48; 46; 48; 46; 49].
+Definition lit_127 : bytes -> option bytes := fun s => if bytes_eqb s s_127_0_0_1 then Some [127; 0; 0; 1] else None.
+Definition req_lit_127 : bytes := [5; 1; 0; 3; 9] ++ s_127_0_0_1 ++ [0; 80].
+Definition s_localhost_dot : bytes := [108; 111; 99; 97; 108; 104; 111; 115; 116; 46].
+Definition req_localhost_dot : bytes := [5; 1; 0; 3; 10] ++ s_localhost_dot ++ [0; 80].
+
+Lemma v4_127_0_0_1_loopback : LoopbackIP [127; 0; 0; 1].
 Proof.
-  induction pkts as [|p ps IH]; cbn [relay_run]; [intros []|].
-  destruct (relay_step cfg uname stop p) as [a'| |] eqn:E.
-  - intros [<- | Hin]; [exists p; split; [left; reflexivity | exact E]|].
-    destruct (IH Hin) as (q & Hq & Hs). exists q. split; [right; exact Hq | exact Hs].
-  - intro Hin. destruct (IH Hin) as (q & Hq & Hs). exists q. split; [right; exact Hq | exact Hs].
-  - intros [].
+  apply LI_v4. split; [reflexivity|]. split; [repeat constructor|].
+  vm_compute. split; [discriminate | reflexivity].
 Qed.
 
-(* no datagram of any association goes to a local destination the user is not allowed to reach;
-   here the unspecified address counts without exception *)
-Lemma c12_relay_no_local : forall cfg uname stop pkts a,
-  In a (relay_run cfg uname stop pkts) ->
-  (LoopDestFull a -> c_allow_loop_dest cfg = false -> user_loop cfg uname = true) /\
-  (PrivDest a -> user_priv cfg uname = true).
+Lemma lit_127_sane : lit_sane lit_127.
 Proof.
-  intros cfg uname stop pkts a Hin.
-  destruct (relay_run_in _ _ _ _ _ Hin) as (pkt & _ & Hs).
-  destruct (relay_step_sent _ _ _ _ _ Hs) as (data & Hp & Hne).
-  destruct (c12_reject_local cfg uname data 0 CMD_CONNECT a Hp (or_introl eq_refl)) as [H1 H2].
+  split; [reflexivity|]. intros s ip H. unfold lit_127 in H.
+  destruct (bytes_eqb s s_127_0_0_1) eqn:E; [|discriminate H]. apply bytes_eqb_eq in E. subst s.
+  unfold LocalName. vm_compute. intuition discriminate.
+Qed.
+Lemma lit_127_ok : lit_bytes_ok lit_127.
+Proof.
+  intros s ip H. unfold lit_127 in H. destruct (bytes_eqb s s_127_0_0_1); [|discriminate H].
+  injection H as <-. repeat constructor.
+Qed.
+
+Lemma c12_domain_literal_refuted_before_fix :
+  (exists lit cfg uname data idx a,
+     lit_sane lit /\ parse_request data = Some (CMD_CONNECT, a) /\ LoopDest lit CMD_CONNECT a /\
+     c_allow_loop_dest cfg = false /\ user_loop cfg uname = false /\
+     find_action false lit cfg true uname data idx = (ACT_DIRECT, None)) /\
+  (exists lit cfg uname data idx a,
+     lit_sane lit /\ parse_request data = Some (CMD_CONNECT, a) /\ a_ip a = [] /\ LocalName (a_fqdn a) /\
+     c_allow_loop_dest cfg = false /\ user_loop cfg uname = false /\
+     find_action false lit cfg true uname data idx = (ACT_DIRECT, None)).
+Proof.
   split.
-  - intros HL Hc. destruct (user_loop cfg uname) eqn:Eu; [reflexivity|].
-    exfalso. apply Hne. rewrite (H1 HL Hc eq_refl). reflexivity.
-  - intros HP. destruct (user_priv cfg uname) eqn:Eu; [reflexivity|].
-    exfalso. apply Hne. rewrite (H2 HP eq_refl). reflexivity.
+  - exists lit_127, empty_cfg, [], req_lit_127, 0, (mkAddr [] s_127_0_0_1).
+    split; [exact lit_127_sane|]. repeat split; try reflexivity.
+    left. exists [127; 0; 0; 1]. split; [right; split; reflexivity | exact v4_127_0_0_1_loopback].
+  - exists no_lit, empty_cfg, [], req_localhost_dot, 0, (mkAddr [] s_localhost_dot).
+    split; [exact no_lit_sane|]. repeat split; try reflexivity.
+    unfold LocalName. vm_compute. left. reflexivity.
 Qed.
 
-(* and a datagram to any other destination is relayed exactly when the rule list does not say REJECT *)
-Lemma relay_step_filter cfg uname stop c a : parse_addr c = Some (a, []) ->
-  ~ (a_ip a = [] /\ a_fqdn a = []) ->
-  forall payload, (3 < length (c ++ payload))%nat ->
-  relay_step cfg uname stop ([0; 0; 0] ++ c ++ payload) =
-  if fst (find_action cfg true uname (VER :: CMD_CONNECT :: 0 :: c) 0) =? ACT_REJECT then RDropped else RSent a.
-Proof.
-  intros Hc Hh payload Hlen. unfold relay_step. cbn [app].
-  match goal with |- context [(?n <=? 6)%nat] => destruct (n <=? 6)%nat eqn:El end.
-  { apply Nat.leb_le in El. cbn [length] in El. lia. }
-  cbn [N.eqb andb negb].
-  assert (Hp : parse_addr (c ++ payload) = Some (a, payload)).
-  { revert Hc. unfold parse_addr. destruct c as [|t r]; [discriminate|]. cbn [app].
-    destruct (t =? ATYP4); [|destruct (t =? ATYP6); [|destruct (t =? ATYPD); [|discriminate]]].
-    - destruct (take 4 r) as [[ip r1]|] eqn:T1; [|discriminate].
-      destruct (take 2 r1) as [[pt r2]|] eqn:T2; [|discriminate]. intro H. injection H as <- ->.
-      apply take_spec in T1 as [-> L1]. apply take_spec in T2 as [-> L2].
-      rewrite <- app_assoc. rewrite <- L1 at 1. rewrite take_app. rewrite app_nil_r.
-      rewrite <- L2 at 1. rewrite take_app. reflexivity.
-    - destruct (take 16 r) as [[ip r1]|] eqn:T1; [|discriminate].
-      destruct (take 2 r1) as [[pt r2]|] eqn:T2; [|discriminate]. intro H. injection H as <- ->.
-      apply take_spec in T1 as [-> L1]. apply take_spec in T2 as [-> L2].
-      rewrite <- app_assoc. rewrite <- L1 at 1. rewrite take_app. rewrite app_nil_r.
-      rewrite <- L2 at 1. rewrite take_app. reflexivity.
-    - destruct r as [|n r0]; [discriminate|]. cbn [app].
-      destruct (take (N.to_nat n) r0) as [[d r1]|] eqn:T1; [|discriminate].
-      destruct (take 2 r1) as [[pt r2]|] eqn:T2; [|discriminate]. intro H. injection H as <- ->.
-      apply take_spec in T1 as [-> L1]. apply take_spec in T2 as [-> L2].
-      rewrite <- app_assoc. rewrite <- L1 at 1. rewrite take_app. rewrite app_nil_r.
-      rewrite <- L2 at 1. rewrite take_app. reflexivity. }
-  rewrite Hp.
-  replace (firstn (length (c ++ payload) - length payload) (c ++ payload)) with c.
-  2:{ rewrite app_length, Nat.add_sub, firstn_app, Nat.sub_diag, firstn_all, firstn_O, app_nil_r. reflexivity. }
-  destruct (fst (find_action cfg true uname (VER :: CMD_CONNECT :: 0 :: c) 0) =? ACT_REJECT); [reflexivity|].
-  destruct (a_ip a); destruct (a_fqdn a); try reflexivity. exfalso. apply Hh. auto.
-Qed.
+(* the same two requests on the fixed model: REJECT (instances of c12_reject_local) *)
+Example ex_literal_fixed :
+  find_action true lit_127 empty_cfg true [] req_lit_127 0 = (ACT_REJECT, None) /\
+  find_action true no_lit empty_cfg true [] req_localhost_dot 0 = (ACT_REJECT, None).
+Proof. split; reflexivity. Qed.
+
+(* the tree the constants were regenerated from contains fixes/C12-domain-literal.diff: the model the
+   correspondence run executes (fx = tree_fixed) is the fixed one the theorems speak about *)
+Lemma c12_tree_fixed : tree_fixed = true.
+Proof. reflexivity. Qed.
 
 (* ------------------------------------------------------------------ non-vacuity: concrete instances *)
 
@@ -629,9 +766,9 @@ Definition cfg_ex : config :=
 (* hypotheses of c12_reject_local hold for "LoCaLhOsT" and user alice (no flags); the answer is REJECT *)
 Example ex_reject_name :
   parse_request req_name = Some (CMD_CONNECT, mkAddr [] s_LoCaLhOsT) /\
-  LoopDest CMD_CONNECT (mkAddr [] s_LoCaLhOsT) /\
+  LoopDest no_lit CMD_CONNECT (mkAddr [] s_LoCaLhOsT) /\
   user_loop cfg_ex u_alice = false /\
-  find_action cfg_ex true u_alice req_name 0 = (ACT_REJECT, None).
+  find_action true no_lit cfg_ex true u_alice req_name 0 = (ACT_REJECT, None).
 Proof.
   repeat split; try reflexivity.
   right. right. left. split; [reflexivity|]. unfold LocalName. vm_compute. left. reflexivity.
@@ -641,11 +778,12 @@ Qed.
 Definition req_mapped_priv : bytes := [5; 3; 0; 4] ++ mapped [172; 31; 255; 255] ++ [0; 53].
 Example ex_reject_mapped_private :
   parse_request req_mapped_priv = Some (CMD_ASSOC, mkAddr (mapped [172; 31; 255; 255]) []) /\
-  PrivDest (mkAddr (mapped [172; 31; 255; 255]) []) /\
+  PrivDest no_lit (mkAddr (mapped [172; 31; 255; 255]) []) /\
   user_priv cfg_ex u_alice = false /\
-  find_action cfg_ex true u_alice req_mapped_priv 0 = (ACT_REJECT, None).
+  find_action true no_lit cfg_ex true u_alice req_mapped_priv 0 = (ACT_REJECT, None).
 Proof.
   repeat split; try reflexivity.
+  exists (mapped [172; 31; 255; 255]). split; [left; split; reflexivity|].
   apply PI_mapped. split; [reflexivity|]. split; [repeat constructor|].
   right. left. vm_compute. split; [discriminate | reflexivity].
 Qed.
@@ -653,9 +791,9 @@ Qed.
 (* bob has both flags: the same requests get what the rule list says (here: the third rule REJECTs every
    name, the second rule PROXYs every IP) - the hypotheses of c12_allowed_unaffected are satisfiable *)
 Example ex_allowed :
-  find_action cfg_ex true u_bob req_name 0 = rules_action cfg_ex (mkAddr [] s_LoCaLhOsT) 0 /\
+  find_action true no_lit cfg_ex true u_bob req_name 0 = rules_action cfg_ex (mkAddr [] s_LoCaLhOsT) 0 /\
   rules_action cfg_ex (mkAddr [] s_LoCaLhOsT) 0 = (ACT_REJECT, None) /\
-  find_action cfg_ex true u_bob req_mapped_priv 0 = (ACT_PROXY, Some [112]).
+  find_action true no_lit cfg_ex true u_bob req_mapped_priv 0 = (ACT_PROXY, Some [112]).
 Proof. repeat split; reflexivity. Qed.
 
 (* overlapping rules: 8.8.8.8 meets rules 1 and 2, the first one wins; 8.9.9.9 only rule 2 *)
@@ -665,14 +803,16 @@ Example ex_first_match :
   match_rule (mkAddr [8; 8; 8; 8] []) (nth 1 (c_rules cfg_ex) (mkRule [] [] 0 [])) = true.
 Proof. repeat split; reflexivity. Qed.
 
-(* a relay run for alice: 127.0.0.1, 0.0.0.0, "LOCALHOST" are dropped, 9.9.9.9 is sent
-   (cfg without rules), and a malformed datagram ends the stream-mode loop *)
+(* a relay run for alice: 127.0.0.1, 0.0.0.0, "LOCALHOST", the domain-typed literal "127.0.0.1" and
+   "localhost." are dropped, 9.9.9.9 is sent (cfg without rules), and a malformed datagram ends the
+   stream-mode loop *)
 Definition cfg_norules : config := mkConfig false [(u_alice, mkUser false false)] [] [].
 Definition dg (addrenc : bytes) : bytes := [0; 0; 0] ++ addrenc ++ [1; 2; 3].
 Example ex_relay :
-  relay_run cfg_norules u_alice true
+  relay_run true lit_127 cfg_norules u_alice true
     [ dg [1; 127; 0; 0; 1; 0; 53]; dg [1; 0; 0; 0; 0; 0; 53];
       dg ([3; 9; 76; 79; 67; 65; 76; 72; 79; 83; 84] ++ [0; 53]);
+      dg ([3; 9] ++ s_127_0_0_1 ++ [0; 53]); dg ([3; 10] ++ s_localhost_dot ++ [0; 53]);
       dg [1; 9; 9; 9; 9; 0; 53]; [0; 0; 1; 1; 9; 9; 9; 9; 0; 53; 1]; dg [1; 9; 9; 9; 9; 0; 53] ]
   = [ mkAddr [9; 9; 9; 9] [] ].
 Proof. reflexivity. Qed.
